@@ -302,6 +302,10 @@ def run(repo, chk):
         chk.expect(ok, 'C13.B3', f'gen_lines::{dname}', 'label then directive', GEN)
     # ---------------- B4 the bytes a literal denotes (lexer side, shared with C12) ------------------------
     if chk.__class__.__name__ == 'Check':
+        chk.rule('C13.B5', 'writing a constant prints exactly its bytes: the library writers skip exactly the empty constant and '
+                           'their loops emit bytes 0..len-1 (shared with C17.D5)')
+        from . import c17
+        c17.run(repo, Remap(chk, {'C17.D5': 'C13.B5'}))
         chk.rule('C13.B4', 'the lexer decodes escapes to the bytes they denote (escape table, \\xHH and \\u{...} readers) - shared with C12.R1/R2')
         from . import c12
         from ..report import Remap as _Remap
